@@ -47,8 +47,15 @@ def insertSorted (x : Nat × Ev) : List (Nat × Ev) → List (Nat × Ev)
   | [] => [x]
   | y :: ys => if x.1 < y.1 then x :: y :: ys else y :: insertSorted x ys
 
+/-- the harness lists completed calls (by call id), then transmissions (by pipe, in order), then closed pipes -/
+def Ev.rank : Ev → Nat
+  | .retMsg .. | .retErr .. => 0
+  | .tx .. => 1
+  | .closed .. => 2
+  | .res .. => 0
+
 def sortByKey (l : List (Nat × Ev)) : List Ev :=
-  (l.foldl (fun acc x => insertSorted x acc) []).map (·.2)
+  ((l.map (fun x => (x.2.rank * 1000000000000 + x.1, x.2))).foldl (fun acc x => insertSorted x acc) []).map (·.2)
 
 end Proto
 end Model
